@@ -134,6 +134,7 @@ void Uni<T, D...>::step(const char *prop, int si, const Step &st, uint32_t kind,
     case K_MASK_ALIAS: opn = "mask_alias<" + nm + ">"; cx.opname = opn.c_str(); info.kind = "mask_alias"; mask_alias(st, cx); break;
     case K_BAD_ELEM: opn = "bad_elem<" + nm + ">"; cx.opname = opn.c_str(); info.kind = "bad_elem"; bad_elem(st, cx); break;
     case K_BOOL_WRITE: opn = "bool_write<" + nm + ">"; cx.opname = opn.c_str(); info.kind = "bool_write"; bool_write(st, cx); break;
+    case K_FLAT_WRITE: opn = "flat_write<" + nm + ">"; cx.opname = opn.c_str(); info.kind = "flat_write"; flat_write(st, cx); break;
     case K_DIAG: opn = "diag_coinc<" + nm + ">"; cx.opname = opn.c_str(); info.kind = "diag"; diag_coinc(st, cx); break;
     default:
         if (kind >= K_FIX_BASE && kind - K_FIX_BASE < fix.size()) { auto &fo = fix[kind - K_FIX_BASE]; info.kind = fo.family; cx.opname = fo.name.c_str(); fo.fn(*this, st, cx); }
